@@ -201,6 +201,9 @@ class EvalMixin:
             return z3.BoolVal(a.name == b.name)
         if isinstance(a, VFunc) and isinstance(b, VFunc):
             return z3.BoolVal(a.qualname == b.qualname and a.node is b.node)
+        if isinstance(a, VExternal) and isinstance(b, VExternal) and a.self_obj is None and b.self_obj is None \
+                and a.name.startswith('builtins.') and b.name.startswith('builtins.'):
+            return z3.BoolVal(a.name == b.name)       # builtin types / functions: identity by name
         if a is b:
             return z3.BoolVal(True)
         if isinstance(a, Value) and isinstance(b, Value) and a.shape is not None \
@@ -528,6 +531,10 @@ class EvalMixin:
         if isinstance(coll, (STup, PyList)):
             return z3.Or([z3.BoolVal(False)] + [self.eq(x, i) for i in coll.items])
         coll = self.force(coll, 'container')
+        if isinstance(coll, SV) and coll.shape is ValS and not self.spec:
+            ext = self.find_external('contains<opaque>')
+            if ext is not None:
+                return ext(self, [x, coll], {}).e
         if isinstance(coll, SRef) and coll.shape.cls in CONTAINERS:
             info = CONTAINERS[coll.shape.cls]
             if info[0] in ('dict', 'set'):
